@@ -34,6 +34,14 @@
 // predicates: 0 = key≠0, 1 = value even, 2 = always false, 3 = always true.
 //
 // REFERENCE: a plain association list (refMap below).
+//
+// STREAMS: exhaustive (3 keys), random (3 / 6 keys, up to 200 ops), big (big.go:
+// maps of 15 … 257 live entries, key numbers up to 2^31).  KEY STRINGS: the key
+// numbers of a history are spelled as strings for the public maps by a spelling
+// (spelling.go: plain k<n>, control characters / DEL / quotes, invalid UTF-8,
+// non-BMP and non-printable runes, JSON-like keys); J demands valid JSON whose
+// keys, as a JSON reader decodes them, are the reference's keys in order, and
+// the exact text encoding/json gives for the insertion-ordered object.
 package c19
 
 import (
@@ -49,6 +57,9 @@ import (
 	"strconv"
 	"strings"
 	"sync"
+	"sync/atomic"
+	"syscall"
+	"time"
 
 	jschema "github.com/jsightapi/jsight-schema-go-library"
 	nj "github.com/jsightapi/jsight-schema-go-library/notations/jschema"
@@ -469,8 +480,10 @@ func keyInt(s string) int {
 }
 
 // expectedJSON renders the JSON object the reference demands: keys in
-// insertion order, values marshalled by encoding/json.
-func expectedJSON(m omap, ref string) string {
+// insertion order, keys and values marshalled by encoding/json.
+func expectedJSON(m omap, ref string) string { return expectedJSONSp(m, plainSpelling, ref) }
+
+func expectedJSONSp(m omap, sp *spelling, ref string) string {
 	// ref is "k=v,k=v"
 	var sb strings.Builder
 	sb.WriteByte('{')
@@ -480,12 +493,15 @@ func expectedJSON(m omap, ref string) string {
 				sb.WriteByte(',')
 			}
 			p := strings.SplitN(e, "=", 2)
+			if len(p) != 2 {
+				return "NO-EXPECTATION(" + ref + ")"
+			}
 			k, _ := strconv.Atoi(p[0])
 			v, _ := strconv.Atoi(p[1])
-			kb, _ := json.Marshal(keyStr(k))
-			sb.Write(kb)
+			ks := sp.str(k)
+			sb.WriteString(sp.jsonKey(k))
 			sb.WriteByte(':')
-			sb.WriteString(m.ValueJSON(keyStr(k), v))
+			sb.WriteString(m.ValueJSON(ks, v))
 		}
 	}
 	sb.WriteByte('}')
@@ -493,7 +509,12 @@ func expectedJSON(m omap, ref string) string {
 }
 
 // decodeJSON lists "k=v" pairs of a marshalled map in the order of the text.
-func decodeJSON(b []byte) string {
+func decodeJSON(b []byte) string { return decodeJSONSp(b, plainSpelling) }
+
+// decodeJSONSp: the text must be ONE valid JSON object; its keys, as a JSON
+// reader sees them, are mapped back to key numbers (-999: not a key of the
+// spelling).
+func decodeJSONSp(b []byte, sp *spelling) string {
 	dec := json.NewDecoder(bytes.NewReader(b))
 	t, err := dec.Token()
 	if err != nil || t != json.Delim('{') {
@@ -510,7 +531,7 @@ func decodeJSON(b []byte) string {
 			return "BAD-JSON " + string(b)
 		}
 		ks, _ := kt.(string)
-		out = append(out, kv(keyInt(ks), atoi(val.Value)))
+		out = append(out, kv(sp.numDec(ks), atoi(val.Value)))
 	}
 	if _, err := dec.Token(); err != nil {
 		return "BAD-JSON " + string(b)
@@ -538,6 +559,12 @@ func errObs(err error) string {
 // every op (and before the final observation, with i = len(ops)) with the
 // observations made so far: the heartbeat the watchdog looks at.
 func runPublic(kind string, ops []string, deep bool, ref []string, progress func(i int, out []string)) (out []string) {
+	return runPublicSp(kind, plainSpelling, ops, deep, ref, progress)
+}
+
+// runPublicSp: the same with the key numbers of the ops spelled by sp.
+func runPublicSp(kind string, sp *spelling, ops []string, deep bool, ref []string, progress func(i int, out []string)) (out []string) {
+	keyStr, keyInt := sp.str, sp.num
 	out = make([]string, 0, len(ops)+1)
 	defer func() {
 		if r := recover(); r != nil {
@@ -660,16 +687,21 @@ func runPublic(kind string, ops []string, deep bool, ref []string, progress func
 			if !deep && opi < len(ref) && strings.HasPrefix(ref[opi], "json ") {
 				// fast path: the raw text must be exactly the JSON object the
 				// reference state demands (keys in insertion order)
-				if want := expectedJSON(m, ref[opi][5:]); want == string(b) {
+				if want := expectedJSONSp(m, sp, ref[opi][5:]); want == string(b) {
 					out = append(out, ref[opi])
 				} else {
 					out = append(out, "json RAW "+string(b)+" WANT "+want)
 				}
 				break
 			}
-			dec := decodeJSON(b)
+			// valid JSON whose keys, as a reader decodes them, are the map's keys in order
+			dec := decodeJSONSp(b, sp)
+			if strings.HasPrefix(dec, "BAD-JSON") {
+				out = append(out, "json "+dec)
+				break
+			}
 			// the raw text must be exactly the insertion-ordered object
-			if want := expectedJSON(m, dec); !strings.HasPrefix(dec, "BAD-JSON") && want != string(b) {
+			if want := expectedJSONSp(m, sp, dec); want != string(b) {
 				out = append(out, "json RAW "+string(b)+" WANT "+want)
 				break
 			}
@@ -794,7 +826,9 @@ func sameObs(a, b []string) bool {
 
 // evalSeq runs one sequence on all map kinds and compares with the reference.
 // nmut = number of leading mutating ops of an exhaustive sequence (-1: random).
-func evalSeq(ops []string, wantModel bool, nmut int, hb *slot) result {
+// sel selects the key spellings: kind number i runs under catalogue (sel+i) mod 5
+// (0 = plain) in rotation sel/5 + i.
+func evalSeq(ops []string, wantModel bool, nmut int, hb *slot, sel int) result {
 	ref, nontrivial := runRef(ops)
 	res := result{nontrivial: nontrivial}
 	kinds, deep := mapKinds, true
@@ -806,13 +840,21 @@ func evalSeq(ops []string, wantModel bool, nmut int, hb *slot) result {
 	if nmut < 0 || nmut <= 3 {
 		res.key = strings.Join(ops, ";")
 	}
-	for _, kind := range kinds {
+	for ki, kind := range kinds {
+		sp := plainSpelling
+		if spellingProblem == "" {
+			sp = spellingFor(sel+ki, sel/len(allSpellings)+ki)
+		}
 		hb.begin(kind, ops)
-		got := runPublic(kind, ops, deep, ref, hb.progressFn())
+		got := runPublicSp(kind, sp, ops, deep, ref, hb.progressFn())
 		hb.end()
 		if !sameObs(got, ref) {
-			res.diffs = append(res.diffs, vh.Diff{Component: "C19-ref", Input: kind + ": " + strings.Join(ops, ";"),
-				Impl: firstDiff(got, ref, ops), Model: "insertion-ordered association list: " + strings.Join(ref, " | ")})
+			d := vh.Diff{Component: "C19-ref", Input: kind + sp.describe(ops) + ": " + strings.Join(ops, ";"),
+				Impl: firstDiff(got, ref, ops), Model: "insertion-ordered association list: " + strings.Join(ref, " | ")}
+			res.diffs = append(res.diffs, d)
+			kind, sp := kind, sp
+			shrinkLater(d.Input, ops, func(c []string, r []string) []string { return runPublicSp(kind, sp, c, true, r, nil) },
+				func(c []string) string { return kind + sp.describe(c) })
 		}
 	}
 	// constraint map through the hook (no J there)
@@ -825,8 +867,11 @@ func evalSeq(ops []string, wantModel bool, nmut int, hb *slot) result {
 	cgot := nj.VerifConstraintsOps(cops)
 	hb.end()
 	if !sameObs(cgot, cref) {
-		res.diffs = append(res.diffs, vh.Diff{Component: "C19-ref", Input: "schema.Constraints (hook VerifConstraintsOps): " + strings.Join(cops, ";"),
-			Impl: firstDiff(cgot, cref, cops), Model: "insertion-ordered association list: " + strings.Join(cref, " | ")})
+		d := vh.Diff{Component: "C19-ref", Input: "schema.Constraints (hook VerifConstraintsOps): " + strings.Join(cops, ";"),
+			Impl: firstDiff(cgot, cref, cops), Model: "insertion-ordered association list: " + strings.Join(cref, " | ")}
+		res.diffs = append(res.diffs, d)
+		shrinkLater(d.Input, cops, func(c []string, _ []string) []string { return nj.VerifConstraintsOps(c) },
+			func([]string) string { return "schema.Constraints (hook VerifConstraintsOps)" })
 	}
 	if wantModel {
 		mops := stripOps(ops, func(o string) bool { return o == "J" || (!modelExt && isExtOp(o)) })
@@ -838,6 +883,46 @@ func evalSeq(ops []string, wantModel bool, nmut int, hb *slot) result {
 		hb.end()
 	}
 	return res
+}
+
+// phaseLog (C19_TIMING=1): wall and CPU time at the end of a phase, on stderr.
+func phaseLog(phase string, t0 time.Time) {
+	if os.Getenv("C19_TIMING") != "" {
+		fmt.Fprintln(os.Stderr, "c19-omap phase", phase, time.Since(t0).Round(time.Millisecond), cpuNow())
+	}
+}
+
+func cpuNow() string {
+	var a, b syscall.Rusage
+	syscall.Getrusage(syscall.RUSAGE_SELF, &a)
+	syscall.Getrusage(syscall.RUSAGE_CHILDREN, &b)
+	return fmt.Sprintf("cpu self %.1fs children %.1fs", float64(a.Utime.Sec)+float64(a.Utime.Usec)/1e6, float64(b.Utime.Sec)+float64(b.Utime.Usec)/1e6)
+}
+
+// askStrided asks the Lean driver with n processes, request i going to process
+// i mod n (the requests of one stream are of similar cost and arrive in runs:
+// contiguous chunks would leave all big histories to one process).
+func askStrided(lines []string, n int) []string {
+	if n <= 1 || len(lines) < 4*n {
+		return vh.AskModel(lines)
+	}
+	out := make([]string, len(lines))
+	var wg sync.WaitGroup
+	for w := 0; w < n; w++ {
+		wg.Add(1)
+		go func(w int) {
+			defer wg.Done()
+			var part []string
+			for i := w; i < len(lines); i += n {
+				part = append(part, lines[i])
+			}
+			for j, rep := range vh.AskModel(part) {
+				out[w+j*n] = rep
+			}
+		}(w)
+	}
+	wg.Wait()
+	return out
 }
 
 func firstDiff(got, ref, ops []string) string {
@@ -916,11 +1001,15 @@ func Run(args []string) {
 			useModel, modelFull = true, true
 		}
 	}
+	t0 := time.Now()
 	rep := vh.NewReport("c19-omap",
 		"EXHAUSTIVE: every sequence of mutating ops (S k v, U k, D k, F p, M over 3 keys, 2 values, 4 predicates; X 0 / N 1 = Each / Map ended by "+
 			"a callback error: 19 ops) of length <= L (quick 4, thorough 6; 5 with X/N) + the observation suffix (Q p, G/V/H k, L, E, A, J, "+
 			"then early exits: W p = Find with its calls, X 0..2, N 0, N 2, then U 0, L) on jschema.ASTNodes, RuleASTNodes (4 constructors) and "+
-			"schema.Constraints (hook); RANDOM: 1..200 mixed ops over 3 or 6 keys. Reference = association list; an iteration ended early made "+
+			"schema.Constraints (hook); RANDOM: 1..200 mixed ops over 3 or 6 keys; BIG: rounds of fill-to-size (15 … 257 live entries: around the powers of two, 100) + "+
+			"Filter / Map / Find / Each / early exits / Delete / Update / lookups at the positions around the size and the powers of two / MarshalJSON, "+
+			"then grow or shrink to the next size; key numbers up to 2^31; the public maps under varying KEY SPELLINGS (control characters, DEL, "+
+			"invalid UTF-8, non-BMP / non-printable runes, empty and JSON-like keys). Reference = association list; an iteration ended early made "+
 			"the calls up to the stop, returns the callback's error, leaves the map usable. WATCHDOG: an op that does not return = diff BLOCKED. "+
 			"Non-trivial = order-relevant event (re-Set of a live key, Set after Delete/Filter-out, Delete on a non-empty map, Filter dropping "+
 			"an entry, a write after an iteration ended early)")
@@ -931,6 +1020,7 @@ func Run(args []string) {
 		modelLen = maxLen
 	}
 	nRandom := vh.Pick(20000, 400000)
+	nBig := vh.Pick(480, 8000)
 	workers := runtime.GOMAXPROCS(0)
 
 	muts := mutOps()
@@ -989,7 +1079,7 @@ func Run(args []string) {
 		if closed || !useModel || len(modelReq) == 0 || (!force && len(modelReq) < 400000) {
 			return
 		}
-		replies := vh.AskModelSharded(modelReq, workers)
+		replies := askStrided(modelReq, workers)
 		for i := range modelReq {
 			if replies[i] != modelImpl[i] {
 				rep.AddDiff(vh.Diff{Component: "C19-model", Level: "correspondence", Input: modelReq[i], Impl: modelImpl[i], Model: replies[i]})
@@ -1063,7 +1153,11 @@ func Run(args []string) {
 						ops = append(ops, muts[i])
 					}
 					ops = append(ops, suffix...)
-					res := evalSeq(ops, useModel && len(idx) <= modelLen, len(idx), hb)
+					sel := 0
+					for _, i := range idx {
+						sel = sel*len(muts) + i + 1 // the number of the sequence
+					}
+					res := evalSeq(ops, useModel && len(idx) <= modelLen, len(idx), hb, sel)
 					res.exhaustiveLong = len(idx) > 3
 					batch = append(batch, res)
 					local[len(idx)]++
@@ -1107,6 +1201,7 @@ func Run(args []string) {
 		}()
 	}
 	completed := waitWorkers(&wg)
+	phaseLog("exhaustive", t0)
 	statMu.Lock()
 	for l, c := range lenCount {
 		rep.Stats[fmt.Sprintf("exhaustive_len_%d", l)] = c
@@ -1136,7 +1231,7 @@ func Run(args []string) {
 					maxL = 12
 				}
 				ops := randomSeq(r, maxL, nk)
-				batch = append(batch, evalSeq(ops, useModel, -1, hb))
+				batch = append(batch, evalSeq(ops, useModel, -1, hb, i))
 				if len(batch) >= 500 {
 					record(batch)
 					batch = batch[:0]
@@ -1147,12 +1242,66 @@ func Run(args []string) {
 	}
 	if completed {
 		completed = waitWorkers(&wg2)
+		phaseLog("random", t0)
 		rep.Stats["random_sequences"] = nRandom
+	}
+	// ---- big stream (big.go): maps with many live entries
+	var wg3 sync.WaitGroup
+	var bigMu sync.Mutex
+	bigStats := map[string]int{}
+	var bigNext atomic.Int64 // cases are handed out one by one: their cost varies with the size
+	for w := 0; w < workers && completed; w++ {
+		wg3.Add(1)
+		hb := wd.newSlot(wg3.Done)
+		go func(w int) {
+			defer hb.finish()
+			var batch []result
+			local := map[string]int{}
+			for {
+				i := int(bigNext.Add(1)) - 1
+				if i >= nBig || wd.abort.Load() || hb.gone.Load() {
+					break
+				}
+				r := vh.NewRand(1950000 + int64(i)) // per-case PRNG: case i replays alone
+				ops, maxLive := bigSeq(r, i)
+				local["big_max_live_"+sizeBucket(maxLive)]++
+				local["big_ops"] += len(ops)
+				batch = append(batch, evalSeq(ops, useModel, -1, hb, i))
+				if len(batch) >= 50 {
+					record(batch)
+					batch = batch[:0]
+				}
+			}
+			record(batch)
+			bigMu.Lock()
+			for k, c := range local {
+				bigStats[k] += c
+			}
+			bigMu.Unlock()
+		}(w)
+	}
+	if completed {
+		completed = waitWorkers(&wg3)
+		phaseLog("big", t0)
+		rep.Stats["big_sequences"] = nBig
+		bigMu.Lock()
+		for k, c := range bigStats {
+			rep.Stats[k] = c
+		}
+		bigMu.Unlock()
+	}
+	if spellingProblem != "" {
+		rep.Extra["key_spellings"] = "OFF (harness bug, every history ran under the plain spelling): " + spellingProblem
+		rep.Stat("key_spellings_off")
+	} else {
+		rep.Extra["key_spellings"] = fmt.Sprintf("every history runs on the public maps under key spellings chosen by its number: plain k<n> + %d catalogues (control characters / DEL / quote / backslash / empty key, invalid UTF-8, non-BMP and non-printable runes, JSON-like and look-alike keys), rotated; MarshalJSON must be valid JSON whose decoded keys (U+FFFD for bytes that are not UTF-8) are the reference's keys in order", len(catalogues))
 	}
 	rep.Extra["maps_per_sequence"] = "length<=4 and random: ASTNodes, RuleASTNodes x4 constructors, Constraints; length 5: 3 public + Constraints; length 6: 2 public + Constraints"
 	mu.Lock()
 	defer mu.Unlock() // late workers (there are none unless the watchdog ended the run) stay out of the report
 	flushModel(true)
+	shrinkKept(rep)
+	phaseLog("model", t0)
 	rep.Exhaustive = completed && wd.blocked.Load() == 0
 	if !completed {
 		rep.Extra["ended_early"] = fmt.Sprintf("the watchdog confirmed %d histories with an op that does not return (diffs BLOCKED) and ended the run; the streams are incomplete", maxBlocked)
